@@ -440,7 +440,7 @@ def pipeline_cases(ctx: Ctx, r, per_kind):
             filespec = make_spec(r, kind, present, {"charge_frame": "plain", "photon": r.choice(["2d", "3d"])}, dims=dims, props={})
             running = make_spec(r, kind, [f for f in fs if r.random() < 0.4], {"charge_frame": "plain"}, dims=dims, props={})
             case = {"route": "pipeline", "spec": filespec, "running": running, "probe_before": True,
-                    "group": groups[j % len(groups)]}
+                    "group": groups[(j + 2 * KINDS.index(kind)) % len(groups)]}
             if j % 2 == 1 or j == 0:
                 # save_detector as a MODEL (in any group) writes the file; the loading pipeline first fills its detector
                 case.update(save="model", save_group=groups[(j + KINDS.index(kind)) % len(groups)], fill_running=True)
@@ -980,7 +980,7 @@ def run(ctx: Ctx):
     if h5.get("h5py"):
         ctx.log("note: h5py is importable here but the HDF5 route is not implemented in this check")
 
-    cases = structured_cases(ctx, r) + random_cases(ctx, r, ctx.budget(120, 300)) + pipeline_cases(ctx, r, ctx.budget(3, 8))
+    cases = structured_cases(ctx, r) + random_cases(ctx, r, ctx.budget(100, 300)) + pipeline_cases(ctx, r, ctx.budget(3, 8))
     if not ctx.quick:
         cases += exhaustive_cases(ctx, ctx.rng("exh"))
         ctx.cov["exhaustive"] = ("all subsets of initialised containers (photon none/2-D/3-D): 4 types via .asdf files, "
